@@ -213,6 +213,25 @@ def _streams(fl, v, tier, drv, har, cwd):
             d = Desc(f, "L", rng.below(1000), owner=owner, generic=generic, tail=tail)
         descs.append(d)
 
+    # ---- stream 2b: adjacent numeric ids whose decimal digits can be split differently ---------
+    # (lambda#1<generic 23> vs lambda#12<generic 3>, foo<1>/comptime#23 vs foo<12>/comptime#3, ...):
+    # every combination of a small id set in every multi-id descriptor shape of one file
+    ids = [0, 1, 2, 3, 9, 10, 11, 12, 19, 21, 23, 31, 99, 100, 101, 110, 111, 112, 123, 231, 311, 999]
+    f0 = cwd + "/demo.capy"
+    for a in ids:
+        for b in ids:
+            descs.append(Desc(f0, "L", a, generic=b))
+            descs.append(Desc(f0, "L", a, tail=("Z", b)))
+            descs.append(Desc(f0, "G", "foo", generic=a, tail=("Z", b)))
+            descs.append(Desc(f0, "G", "foo", generic=a, tail=("I", b, "value")))
+            descs.append(Desc(f0, "L", a, tail=("I", b, "value")))
+    ids3 = [1, 2, 3, 11, 12, 21, 23, 31, 111, 112, 123]
+    for a in ids3:
+        for b in ids3:
+            for c in ids3:
+                descs.append(Desc(f0, "L", a, generic=b, tail=("Z", c)))
+                descs.append(Desc(f0, "L", a, generic=b, tail=("I", c, "init_flag")))
+
     impl = C.run_lines([har, cwd], [impl_line(md, d) for d in descs])
     model = C.run_lines([drv], [model_line(md, cwd, d, i) for d, i in zip(descs, impl)], indexed=False)
     if len(impl) != len(descs) or len(model) != len(descs):
@@ -226,12 +245,18 @@ def _streams(fl, v, tier, drv, har, cwd):
     safe_n = wf_n = 0
     hist = {"G": 0, "L": 0, "generic": 0, "comptime": 0, "data": 0, "owner": 0, "module": 0, "crash": 0}
     groups = {}
+    malformed = 0
     plain = re.compile(r"^[a-z]+(\.capy)?$")
     for k, (d, i, m) in enumerate(zip(descs, impl, model)):
         mf = m.split("\t")
         if len(mf) < 5:
-            fl.broken.append({"what": "model driver output malformed", "line": m, "case": d.show(cwd)})
-            return
+            # the model driver could not process this case (e.g. the verified decoder runs out of
+            # stack on an implementation string of an unexpected shape): a broken correspondence,
+            # but the collision search on the implementation's own symbols below still runs
+            malformed += 1
+            if malformed == 1:
+                fl.broken.append({"what": "model driver output malformed", "line": m, "case": d.show(cwd)})
+            mf = ["?", "0", "0", "?", "?"]
         mstr, safe, wf, dec_model, dec_impl = mf[:5]
         stream = 0 if k < n_exh else 1
         hist[d.base] += 1
